@@ -7,6 +7,7 @@ import (
 	"fmt"
 	"os"
 	"path/filepath"
+	"runtime"
 	"sort"
 	"strconv"
 	"strings"
@@ -107,6 +108,7 @@ type RunOutcome struct {
 	OpHash    uint64
 	Sample    interface{}
 	Dir       string
+	Races     []RaceReport
 }
 
 // execSeq makes sandbox directories unique per execution: a run that leaks an open file
@@ -133,6 +135,18 @@ func RunOne(t *testing.T, c *Check, conf string, seed uint64, run int, replay []
 			judge = defaultJudge
 		}
 		out.Violation = judge(res)
+	}
+	if RaceBuild {
+		out.Races = res.Races
+		CollectRaceReports() // anything written after the run ended belongs to no run
+		if out.Violation == nil {
+			for i := range out.Races {
+				if r := &out.Races[i]; r.IsProgramRace() {
+					out.Violation = &Violation{Rule: c.Property + ".data-race", Sig: r.Signature(), Detail: r.Text}
+					break
+				}
+			}
+		}
 	}
 	return out
 }
@@ -219,6 +233,12 @@ func Main(t *testing.T) {
 		fmt.Printf("HARNESS-ERROR unknown check %q (have %v)\n", name, names)
 		os.Exit(3)
 	}
+	// One P: timers live on per-P heaps and a due timer on another P's heap fires whenever that
+	// P next looks at it, i.e. asynchronously to the scheduler goroutine (synctest.Wait waits for
+	// goroutines to block, not for due timers to fire). With a single P every due timer has
+	// fired before the next goroutine runs, so a poll of two tickers that expired in the same
+	// scheduling step sees both — which the tape then orders.
+	runtime.GOMAXPROCS(1)
 	tmp := os.Getenv("VERIF_TMP")
 	if tmp == "" {
 		tmp = os.TempDir()
@@ -257,6 +277,20 @@ func Main(t *testing.T) {
 		}
 		out := RunOne(t, c, rf.Conf, rf.Seed, rf.Run, rf.Tape, tmp, true)
 		os.RemoveAll(out.Dir)
+		// a fresh process reports every race of the run, the finding process only those it had
+		// not reported in earlier runs: look for the file's signature among all of them
+		for i := range out.Races {
+			if r := &out.Races[i]; r.IsProgramRace() && r.Signature() == rf.Signature {
+				out.Violation = &Violation{Rule: rf.Rule, Sig: r.Signature(), Detail: r.Text}
+			}
+		}
+		if out.Violation != nil && out.Violation.Sig == rf.Signature && os.Getenv("VERIF_REPLAY_REWRITE") != "" {
+			// refresh the rendered parts of the file from this (possibly minimised) tape
+			rf.Ops, rf.Schedule, rf.Log, rf.Detail = out.Ops, lastN(out.Res.Trace, 400), lastN(out.Res.Log, 100), out.Violation.Detail
+			if nb, err := json.MarshalIndent(rf, "", " "); err == nil {
+				os.WriteFile(rp, nb, 0644)
+			}
+		}
 		if out.Violation != nil && out.Violation.Sig == rf.Signature {
 			fmt.Fprintf(realStdout, "REPRODUCED property=%s signature=%s\n%s\n", rf.Property, rf.Signature, out.Violation.Detail)
 			return
@@ -285,13 +319,16 @@ func Main(t *testing.T) {
 			run := from + i*stride
 			conf := confs[run%len(confs)]
 			lastProgress.touch()
-			out := RunOne(t, c, conf, seed, run, nil, tmp, false)
+			out := RunOne(t, c, conf, seed, run, nil, tmp, os.Getenv("VERIF_DET_TRACE") != "")
 			os.RemoveAll(out.Dir)
+			if d := os.Getenv("VERIF_DET_TRACE"); d != "" {
+				os.WriteFile(filepath.Join(d, fmt.Sprintf("trace-%d.txt", run)), []byte(strings.Join(out.Res.Trace, "\n")+"\n--ops--\n"+strings.Join(out.Ops, "\n")+"\n--log--\n"+strings.Join(out.Res.Log, "\n")+"\n"), 0644)
+			}
 			v := ""
 			if out.Violation != nil {
 				v = out.Violation.Sig
 			}
-			fmt.Fprintf(realStdout, "DET %d %s %016x %016x steps=%d tape=%d viol=%q budget=%v\n", run, conf, out.Res.SchedHash, out.OpHash, out.Res.Steps, len(out.Res.Tape), v, out.Res.Budget)
+			fmt.Fprintf(realStdout, "DET %d %s %016x %016x steps=%d tape=%d viol=%q budget=%v kinds=%v\n", run, conf, out.Res.SchedHash, out.OpHash, out.Res.Steps, len(out.Res.Tape), v, out.Res.Budget, out.Res.KindCounts)
 		}
 		return
 	}
@@ -351,6 +388,22 @@ func Main(t *testing.T) {
 			rep.Samples = append(rep.Samples, map[string]interface{}{"run": run, "conf": conf, "steps": res.Steps,
 				"sim_time": res.SimTime.String(), "policy": res.Policy, "case": out.Sample, "faults": res.Faults, "probes": res.Probes})
 		}
+		for i := range out.Races {
+			switch r := &out.Races[i]; {
+			case r.IsProgramRace():
+				rep.Probes["race-report:program"]++
+			case r.HarnessMade:
+				rep.Probes["race-report:harness-made(ignored)"]++
+				if len(rep.Notes) < 8 {
+					rep.Notes = append(rep.Notes, "harness-made race report in run "+strconv.Itoa(run)+":\n"+firstN(r.Text, 1500))
+				}
+			default:
+				rep.Probes["race-report:outside-module(ignored)"]++
+				if len(rep.Notes) < 8 {
+					rep.Notes = append(rep.Notes, "race report outside the module in run "+strconv.Itoa(run)+":\n"+firstN(r.Text, 1500))
+				}
+			}
+		}
 		if out.Violation == nil {
 			os.RemoveAll(out.Dir)
 			continue
@@ -360,6 +413,19 @@ func Main(t *testing.T) {
 		os.RemoveAll(out.Dir)
 		if sigSeen[v.Sig] {
 			continue // one replay file per signature per worker
+		}
+		if RaceBuild {
+			// the detector reports a pair of stacks once per process: confirmation and
+			// minimisation happen in fresh processes (bin/vcheck), not here
+			sigSeen[v.Sig] = true
+			rf := ReplayFile{Property: c.Property, Check: c.Name, Conf: conf, Seed: seed, Run: run, Rule: v.Rule, Signature: v.Sig,
+				Detail: v.Detail, Tape: res.Tape, TapeLenRaw: len(res.Tape), Ops: out.Ops, Log: lastN(res.Log, 100)}
+			path := filepath.Join(replayDir, fmt.Sprintf("%s-%s-%d-%d.json", c.Property, c.Name, seed, run))
+			b, _ := json.MarshalIndent(rf, "", " ")
+			os.WriteFile(path, b, 0644)
+			rep.Violations = append(rep.Violations, rf)
+			rep.ReplayPaths = append(rep.ReplayPaths, path)
+			continue
 		}
 		lastProgress.touch()
 		again := RunOne(t, c, conf, seed, run, res.Tape, tmp, false)
@@ -421,6 +487,13 @@ func Main(t *testing.T) {
 			os.Exit(3)
 		}
 	}
+}
+
+func firstN(s string, n int) string {
+	if len(s) > n {
+		return s[:n]
+	}
+	return s
 }
 
 func lastN(s []string, n int) []string {
